@@ -459,7 +459,9 @@ fn coq_cfg(c: &CfgT) -> String {
 
 /// Renders the abstract configuration as a config file text. Key names are the documented ones
 /// (camelCase); absent = key omitted (or `null` for the optional string/bool keys of `name`).
-fn render_cfg(c: &CfgT, rng: &mut Rng) -> (String, &'static str) {
+/// Third component: the text has `schemaModuleSpecifier` and no `schemaOutput` (legal for `generate`: no schema file is written).
+fn render_cfg(c: &CfgT, rng: &mut Rng) -> (String, &'static str, bool) {
+    let mut sms = false;
     let mut root = Map::new();
     root.insert("schema".into(), json!("./schema/*.graphql"));
     if rng.chance(1, 2) { root.insert("documents".into(), json!(["./src/**/*.graphql"])); }
@@ -474,7 +476,8 @@ fn render_cfg(c: &CfgT, rng: &mut Rng) -> (String, &'static str) {
         Some(g) => {
             let mut gen = Map::new();
             if let Some(m) = g.mode { gen.insert("mode".into(), json!(MODES[m as usize])); }
-            if rng.chance(1, 3) { gen.insert("schemaOutput".into(), json!("./src/generated/schema.d.ts")); }
+            if rng.chance(1, 3) { gen.insert("schemaModuleSpecifier".into(), json!("@/generated/schema")); sms = true; }
+            else if rng.chance(1, 3) { gen.insert("schemaOutput".into(), json!("./src/generated/schema.d.ts")); }
             if rng.chance(1, 6) { gen.insert("emitSchemaRuntime".into(), json!(true)); }
             if let Some(t) = &g.ty {
                 let mut tm = Map::new();
@@ -514,9 +517,9 @@ fn render_cfg(c: &CfgT, rng: &mut Rng) -> (String, &'static str) {
     }
     let v = Value::Object(root);
     match rng.below(3) {
-        0 => (serde_json::to_string(&v).unwrap(), "json"),
-        1 => (serde_json::to_string_pretty(&v).unwrap(), "json-pretty"),
-        _ => (serde_yaml::to_string(&v).unwrap(), "yaml"),
+        0 => (serde_json::to_string(&v).unwrap(), "json", sms),
+        1 => (serde_json::to_string_pretty(&v).unwrap(), "json-pretty", sms),
+        _ => (serde_yaml::to_string(&v).unwrap(), "yaml", sms),
     }
 }
 
@@ -602,7 +605,7 @@ fn coq_text_exports(t: &(Vec<String>, Vec<String>)) -> String {
 
 /// Writes the project and the configuration text to a directory, runs `nitrogql-cli generate` and returns the
 /// text of the declaration file it wrote for main.graphql (None: the CLI refused the project, e.g. `check` failed).
-fn cli_generate(cli: &str, dir: &Path, pr: &Project, cfg_text: &str, format: &str, mode: Option<u8>) -> Option<String> {
+fn cli_generate(cli: &str, dir: &Path, pr: &Project, cfg_text: &str, format: &str, mode: Option<u8>, schema_output_arg: bool) -> Option<String> {
     let _ = fs::remove_dir_all(dir);
     fs::create_dir_all(dir.join("schema")).ok()?;
     fs::create_dir_all(dir.join("src")).ok()?;
@@ -610,11 +613,11 @@ fn cli_generate(cli: &str, dir: &Path, pr: &Project, cfg_text: &str, format: &st
     for (name, text) in &pr.sources { fs::write(dir.join("src").join(name), text).ok()?; }
     let cfg_name = if format == "yaml" { "graphql.config.yaml" } else { "graphql.config.json" };
     fs::write(dir.join(cfg_name), cfg_text).ok()?;
-    let out = std::process::Command::new(cli)
-        .current_dir(dir)
-        .args(["--config-file", cfg_name, "--schema", "./schema/*.graphql", "--operation", "./src/*.graphql",
-               "--schema-output", "./src/generated/schema.ts", "generate"])
-        .output().ok()?;
+    // with `schemaModuleSpecifier` in the text no schema output is named anywhere (the CLI then writes no schema file)
+    let mut argv = vec!["--config-file", cfg_name, "--schema", "./schema/*.graphql", "--operation", "./src/*.graphql"];
+    if schema_output_arg { argv.extend(["--schema-output", "./src/generated/schema.ts"]); }
+    argv.push("generate");
+    let out = std::process::Command::new(cli).current_dir(dir).args(&argv).output().ok()?;
     if !out.status.success() && std::env::var("C14_DEBUG").is_ok() {
         eprintln!("CLI rejected: {}\n{}\n---\n{}", String::from_utf8_lossy(&out.stderr), String::from_utf8_lossy(&out.stdout),
             pr.sources.iter().map(|(n, t)| format!("== {}\n{}", n, t)).collect::<Vec<_>>().join("\n"));
@@ -777,7 +780,7 @@ fn main() {
             let _ = writeln!(prelude, "Definition {p}_sp : list str := {}.", coq_list(&pr.spreads, |s| coq_str(s)));
             let _ = writeln!(prelude, "Definition {p}_doc : doc := {}.", coq_doc(&pr.doc));
             preludes.push(prelude);
-            let refused = cli.as_ref().map(|c| cli_generate(c, &e2e_dir, &pr, "schema: ./schema/*.graphql\n", "yaml", None).is_none());
+            let refused = cli.as_ref().map(|c| cli_generate(c, &e2e_dir, &pr, "schema: ./schema/*.graphql\n", "yaml", None, true).is_none());
             if refused == Some(false) {
                 direct_failures.push(json!({"what": "nitrogql-cli generate writes a declaration file for a document that spreads an undefined fragment (the loader produces no module for it)",
                     "classes": [], "project": pr.descr}));
@@ -847,7 +850,7 @@ fn main() {
             }
         }
         for cfg in cfgs {
-            let (text, format) = render_cfg(&cfg, &mut rng);
+            let (text, format, sms) = render_cfg(&cfg, &mut rng);
             let t2 = text.clone();
             let parsed = catch(move || parse_config(&t2));
             let config = match parsed {
@@ -880,7 +883,8 @@ fn main() {
             if pr.via_resolver && e2e_budget > 0 && rng.chance(1, 3) {
                 e2e_budget -= 1;
                 let mode = match &cfg { Some(GenT { mode: Some(m), .. }) => Some(*m), _ => None };
-                match cli_generate(cli.as_ref().unwrap(), &e2e_dir, &pr, &text, format, mode) {
+                if sms { bump("e2e_cli_runs_with_schemaModuleSpecifier_and_no_schemaOutput", &mut dist); }
+                match cli_generate(cli.as_ref().unwrap(), &e2e_dir, &pr, &text, format, mode, !sms) {
                     Some(t) => { bump("e2e_cli_runs_ok", &mut dist); te_cli = Some(text_exports(&t, ": ")); }
                     None => { bump("e2e_cli_rejected_project(check)", &mut dist); }
                 }
